@@ -30,14 +30,16 @@ import (
 func init() {
 	vf.Register(&vf.CheckDef{ID: "C16", Level: "model_checking", Run: run,
 		Workers: map[string]vf.WorkerFunc{
-			"days":     daysWorker,
-			"seconds":  secondsWorker,
-			"frac":     fracWorker,
-			"formats":  formatsWorker,
-			"dhms":     dhmsWorker,
-			"datediff": datediffWorker,
-			"zone":     zoneWorker,
-			"bind":     bindWorker,
+			"days":      daysWorker,
+			"seconds":   secondsWorker,
+			"frac":      fracWorker,
+			"fracparse": fracParseWorker,
+			"fraczone":  fracZoneWorker,
+			"formats":   formatsWorker,
+			"dhms":      dhmsWorker,
+			"datediff":  datediffWorker,
+			"zone":      zoneWorker,
+			"bind":      bindWorker,
 		}})
 }
 
@@ -99,7 +101,7 @@ type kit struct {
 	cnt map[string]int64
 }
 
-func newKit(w *vf.Worker) *kit { return &kit{w: w, cnt: map[string]int64{}} }
+func newKit(w *vf.Worker) *kit  { return &kit{w: w, cnt: map[string]int64{}} }
 func (k *kit) hit(name string)  { k.cnt[name]++; k.w.Eval(1) }
 func (k *kit) note(name string) { k.cnt[name]++ }
 func (k *kit) flush() {
@@ -219,10 +221,11 @@ type zoneArgs struct {
 func run(c *vf.Ctx) {
 	c.Rule = "every enumerated (function, instant, format/decimals, zone) tuple is compared with an independent reference (integer civil-from-days for GMT, Python zoneinfo for zones) or a law on the real code; " +
 		"instants: every day of the year range x {00:00:00,12:00:00,23:59:59}, every second of +-36 h windows around calendar boundaries, every second of a window around every tz transition 1900-2037 of 10 zones, " +
-		"fractional seconds/nanoseconds x 0..9 decimals, all integers of a range for the d/h/m/s family, all pairs of a date set for datediff. distinct_nontrivial = number of distinct (function, argument tuple) evaluations that were compared with an expectation (all tuples are distinct by construction)"
+		"fractional seconds/nanoseconds x 0..9 decimals, 10 fraction digit strings (1..9 digits) in the TEXT given to every float-seconds and integer-nanosecond parse function at every second of a window around 18 representation limits and at 3 instants of every year 0001..9999 (GMT; in 10 zones against zoneinfo), all integers of a range for the d/h/m/s family, all pairs of a date set for datediff. distinct_nontrivial = number of distinct (function, argument tuple) evaluations that were compared with an expectation (all tuples are distinct by construction)"
 	c.Assume("years outside 0001..9999 are not explored (the property's range); leap seconds are not modelled by either side (Unix time)")
 	c.Assume("float inputs: the exact binary value of the double is the instant; with n decimals the text may be floor or round-half-up of that value to n decimals, evaluated with a slack of one ulp (or 2^-52 s) on the input: the documentation does not say truncate or round")
 	c.Assume("sec2gmtdate/%s on negative fractional floats: floor and truncation toward zero are both accepted ('integer part' in the help text)")
+	c.Assume("a parsed text with a fractional second: a float result is compared with the exact rational t + digits/10^k and must be within 2 ulp of it (float64 seconds cannot do better: 2 us near years 1677/2262, 60 us in year 9999); localtime2sec with a fraction, i.e. a fraction after a FINAL %S: reference-dsl-time.md (Fractional seconds) shows (error) for it, so an error is accepted there and a number must be the instant")
 	c.Assume("strptime %s is not in the documented strptime format table (reference-dsl-time.md): not asserted, only counted")
 	c.Assume("strpntime/gmt2nsec/nsec* are only asserted where the nanosecond count fits int64 (1677-09-21..2262-04-11); outside, counted as unrepresentable")
 	c.Assume("%y round trips only for years 1969..2068 (POSIX pivot); %z is not asserted for UTC offsets that are not whole minutes (pre-1920 local mean times)")
@@ -266,6 +269,12 @@ func run(c *vf.Ctx) {
 	if want("frac") {
 		merge(c.RunPool(vf.PoolSpec{Worker: "frac", Shards: 32}))
 	}
+	if want("fracparse") {
+		merge(c.RunPool(vf.PoolSpec{Worker: "fracparse", Shards: 128}))
+	}
+	if want("fraczone") {
+		merge(c.RunPool(vf.PoolSpec{Worker: "fraczone", Shards: 48}))
+	}
 	if want("formats") {
 		merge(c.RunPool(vf.PoolSpec{Worker: "formats", Shards: 64}))
 	}
@@ -286,7 +295,7 @@ func run(c *vf.Ctx) {
 	// per-symbol hit counts
 	hits := map[string]int64{}
 	for k, v := range c.Counters {
-		if strings.HasPrefix(k, "fn:") || strings.HasPrefix(k, "code:") || strings.HasPrefix(k, "zone:") || strings.HasPrefix(k, "verbflag:") || strings.HasPrefix(k, "tzmech:") || strings.HasPrefix(k, "unit:") {
+		if strings.HasPrefix(k, "limit:") || strings.HasPrefix(k, "parsefrac") || strings.HasPrefix(k, "fn:") || strings.HasPrefix(k, "code:") || strings.HasPrefix(k, "zone:") || strings.HasPrefix(k, "verbflag:") || strings.HasPrefix(k, "tzmech:") || strings.HasPrefix(k, "unit:") {
 			hits[k] = v
 		}
 	}
@@ -315,6 +324,19 @@ func run(c *vf.Ctx) {
 			if c.Counters["fn:"+fn] == 0 {
 				c.Broken("vacuity: function %s was never exercised", fn)
 			}
+		}
+		for _, lc := range limitCentres() {
+			if c.Counters["limit:"+lc.name] == 0 {
+				c.Broken("vacuity: limit centre %s was never exercised with fractional texts", lc.name)
+			}
+		}
+		for _, f := range parseFracs {
+			if c.Counters["parsefrac:."+f.digits] == 0 {
+				c.Broken("vacuity: fraction text .%s was never parsed", f.digits)
+			}
+		}
+		if c.Counters["year-sweep-years"] != 9999 {
+			c.Broken("vacuity: the every-year sweep of fractional texts covered %d years, expected 9999", c.Counters["year-sweep-years"])
 		}
 		for _, z := range zoneList {
 			if c.Counters["zone:"+z] == 0 {
